@@ -154,12 +154,13 @@ type Fault struct {
 }
 
 type Harness struct {
-	W       World
-	mu      sync.Mutex
-	Log     []Event // every call to fetcher / registry / finder, and every trace event, in order
-	Faults  []Fault
-	counts  map[string]int
-	Finders []*Finder
+	W         World
+	mu        sync.Mutex
+	Log       []Event // every call to fetcher / registry / finder, and every trace event, in order
+	Faults    []Fault
+	counts    map[string]int
+	diagCache map[string]sourcebundle.Diagnostics
+	Finders   []*Finder
 	// OnBoundary, if set, is called at every callback boundary (C12 crash points).
 	OnBoundary func(where string)
 	// Budget aborts runaway builds: when more callbacks than this have been made, finders fail the build.
@@ -427,10 +428,25 @@ func (f *Finder) FindDependencies(fsys iofs.FS, subPath string, deps *sourcebund
 			deps.AddLocalSource(src, fd)
 		}
 	}
+	if len(df.Diags) == 0 {
+		return nil
+	}
+	// A finder may keep its findings and hand the very same slice back whenever they
+	// apply again (another package with the same content of findings): equal lists share one slice.
+	kb, _ := json.Marshal(df.Diags)
+	f.h.mu.Lock()
+	defer f.h.mu.Unlock()
+	if f.h.diagCache == nil {
+		f.h.diagCache = map[string]sourcebundle.Diagnostics{}
+	}
+	if cached, ok := f.h.diagCache[string(kb)]; ok {
+		return cached
+	}
 	var out sourcebundle.Diagnostics
 	for _, d := range df.Diags {
 		out = append(out, harnessDiag{d})
 	}
+	f.h.diagCache[string(kb)] = out
 	return out
 }
 
